@@ -22,6 +22,7 @@ type Group struct {
 	Classes []string // obligation classes kept (nil: all)
 	NoCt    bool     // ignore contracts (pure safety sweep)
 	OnlyCt  bool     // only functions that have a contract tagged with this property
+	Own     bool     // ownership discipline of deep copies (C17)
 	Narrow  bool     // value-changing integer conversions must be provably exact (C13)
 }
 
@@ -123,6 +124,19 @@ func init() {
 		},
 		Assume: []string{
 			"hash/crc32.Update computes the IEEE CRC-32 (assumed contract)",
+		}})
+}
+
+func init() {
+	reg(&PropSpec{ID: "C17", Title: "Deep copies are equal to and independent of their originals", DesignRef: "DESIGN.md §4 C17",
+		Groups: []Group{
+			{Funcs: `\)\.(DeepCopyInto|DeepCopy|DeepCopyMessage|DeepCopyDataType)$`, Own: true,
+				Classes: []string{"own", "post", "pre", "nil", "index", "alloc", "cover", "auto-inv-init", "auto-inv-step", "typeassert"}},
+		},
+		Assume: []string{
+			"the ownership contract is generated from the current type definitions (go/types) on every run: a field added without regenerating the copy functions fails post:own.<field>",
+			"equality half: proved for every scalar component, nil-ness and slice lengths at the first level of each DeepCopyInto; element-wise equality of copied slices/maps is not stated (copy() and the generated loops are trusted for contents)",
+			"strings are immutable and may be shared; function and channel values are not considered mutable state",
 		}})
 }
 
